@@ -72,6 +72,18 @@ def handle : P String := do
     match coarsenLevels levels n (fun i => f [i]) with
     | .error e => pure e.show
     | .ok (m, g) => pure (toString m ++ " | " ++ showRats ((List.range m).map g))
+  else if cmd = "rseq" then do
+    -- rseq m1 m2 k {n1 n2 vals}^k: successive conservative resizes on ONE Resize object with target m1 x m2
+    let m1 ← P.nat; let m2 ← P.nat
+    let calls ← P.list (do let n1 ← P.nat; let n2 ← P.nat; let vals ← P.list P.rat; pure (n1, n2, vals))
+    P.done
+    let rec go (o : ResizeObj) : List (Nat × Nat × List Rat) → List String
+      | [] => []
+      | (n1, n2, vals) :: rest =>
+        let f := ofList [n1, n2] vals
+        let r := o.call false n1 n2 (fun a b => f [a, b])
+        tab [m1, m2] (fun idx => match idx with | [j1, j2] => r.2 j1 j2 | _ => 0) :: go r.1 rest
+    pure (" ; ".intercalate (go ⟨m1, m2, true, none⟩ calls))
   else if cmd = "canvas" then do
     -- canvas k {top left rows cols vals}^k: canvas computed by the model; "top left R C | values"
     let imgs ← P.list (do
